@@ -581,7 +581,12 @@ func init() {
 		Exhaustive: func(string) bool { return true },
 	}
 	judge := mon.Kind(p, "sighash", func(c *mon.Ctx, in *shCase) { shJudge(c, in, false) })
-	p.Run = func(c *mon.Ctx) { shRun(c, "C02", true, judge) }
+	seq := mon.Kind(p, "sequence", func(c *mon.Ctx, in *shSeq) { shJudgeSeq(c, in, false) })
+	p.Run = func(c *mon.Ctx) {
+		if shRun(c, "C02", true, judge) {
+			shRunSeq(c, true, seq)
+		}
+	}
 	p.Floor = func(a *mon.Agg) string { return shFloor(a, true) }
 	mon.Register(p)
 }
